@@ -49,6 +49,12 @@ class PseudoNetCDFType(type):
 PseudoNetCDFSelfReg = PseudoNetCDFType('pnc', (object,), dict(__doc__='Test'))
 
 
+def _keep1d(func1d):
+    def func1d_keep(x, *args, **kwds):
+        return np.ma.atleast_1d(func1d(x, *args, **kwds))
+    return func1d_keep
+
+
 class PseudoNetCDFFile(PseudoNetCDFSelfReg, object):
     """
     PseudoNetCDFFile provides an interface and standard set of
@@ -1744,12 +1750,10 @@ class PseudoNetCDFFile(PseudoNetCDFSelfReg, object):
                         newvals = getattr(newvals, dfunc)(
                             axis=di, keepdims=True)
                     else:
-                        nd_before = newvals.ndim
+                        # a function that returns a scalar (np.mean) leaves
+                        # a dimension of length one (masked if the scalar is)
+                        opts['func1d'] = _keep1d(opts['func1d'])
                         newvals = np.apply_along_axis(**opts)
-                        if newvals.ndim == nd_before - 1:
-                            # a function that returns a scalar (np.mean)
-                            # leaves a dimension of length one
-                            newvals = np.expand_dims(newvals, di)
             # the output takes the data type the functions returned (e.g.,
             # the mean of an integer variable is not truncated)
             newvaro = outf.copyVariable(
